@@ -144,6 +144,16 @@ def search_term(pat, s):
     return z3.simplify(z3.Or(conds + [z3.BoolVal(False)]))
 
 
+def _norm_bytes(pat, s):
+    """bytes patterns on symbolic byte strings: bytes are code points below 256 (latin-1 view)"""
+    from .engine import SBytes
+    if isinstance(s, SBytes):
+        s = SStr(list(s.items))
+        if isinstance(pat, (bytes, bytearray)):
+            pat = bytes(pat).decode('latin-1')
+    return pat, s
+
+
 class SymRe:
     error = real_re.error
     IGNORECASE = real_re.IGNORECASE
@@ -155,8 +165,9 @@ class SymRe:
 
     @staticmethod
     def match(pat, s, flags=0):
-        if isinstance(s, str):
+        if isinstance(s, (str, bytes, bytearray)):
             return real_re.match(pat, s, flags)
+        pat, s = _norm_bytes(pat, s)
         assert flags == 0
         PATTERNS_SEEN.append(pat)
         c = match_term(pat, s)
@@ -164,16 +175,18 @@ class SymRe:
 
     @staticmethod
     def fullmatch(pat, s, flags=0):
-        if isinstance(s, str):
+        if isinstance(s, (str, bytes, bytearray)):
             return real_re.fullmatch(pat, s, flags)
+        pat, s = _norm_bytes(pat, s)
         PATTERNS_SEEN.append(pat)
         c = match_term(pat, s, full=True)
         return _M(c) if bool(SBool(c)) else None
 
     @staticmethod
     def search(pat, s, flags=0):
-        if isinstance(s, str):
+        if isinstance(s, (str, bytes, bytearray)):
             return real_re.search(pat, s, flags)
+        pat, s = _norm_bytes(pat, s)
         assert flags == 0
         PATTERNS_SEEN.append(pat)
         c = search_term(pat, s)
@@ -204,13 +217,13 @@ class SymRe:
             pattern = pat
 
             def match(self, s):
-                return real.match(s) if isinstance(s, str) else SymRe.match(pat, s, flags)
+                return real.match(s) if isinstance(s, (str, bytes, bytearray)) else SymRe.match(pat, s, flags)
 
             def search(self, s):
-                return real.search(s) if isinstance(s, str) else SymRe.search(pat, s, flags)
+                return real.search(s) if isinstance(s, (str, bytes, bytearray)) else SymRe.search(pat, s, flags)
 
             def fullmatch(self, s):
-                return real.fullmatch(s) if isinstance(s, str) else SymRe.fullmatch(pat, s, flags)
+                return real.fullmatch(s) if isinstance(s, (str, bytes, bytearray)) else SymRe.fullmatch(pat, s, flags)
 
             def sub(self, repl, s):
                 return real.sub(repl, s) if isinstance(s, str) else SymRe.sub(pat, repl, s)
